@@ -13,11 +13,11 @@ CHECKS = {
    technique="property-based testing against an independent track/segment reference model (tiling validity predicate)"),
 
  "C09": dict(level="exploration", design="4/C09",
-   text="The single-relation table (4 sides x 2 orthogonal alignments x 4 x 4 reflections x 3 separation kinds = 384) exhaustively; seeded proptest search over placement programs of 1-25 instances (chains and trees over rectangular and two-step outlines, relabelled and shuffled, each placed in two listing orders; some instances handed over through Layout::places; the program cell listed, listed after its user, or reachable only through an instance; a twin cell with shifted roots in the same library must be placed identically), cyclic programs (must be errors) and absolute array instances (count 1-6, pitch in x/y, both reflections, nesting depth <= 3). Oracle: bounding-box model of the relation computed from (location, cell size, reflections), required to equal Instance::boundbox(); reference expansion for arrays.",
+   text="The single-relation table (4 sides x 2 orthogonal alignments x 4 x 4 reflections x 3 separation kinds = 384) exhaustively; seeded proptest search over placement programs of 1-25 instances (chains and trees over rectangular and two-step outlines, relabelled and shuffled, each placed in two listing orders; some instances handed over through Layout::places; the program cell listed, listed after its user, or reachable only through an instance; a twin cell with shifted roots in the same library must be placed identically), cyclic programs and cells that contain an instance of themselves - directly or through a unit cell, in `instances` or among the objects awaiting placement (must be errors, never a deadlock; literal regression for ab62e2a) - and absolute array instances (count 1-6, pitch in x/y, both reflections, nesting depth <= 3). Oracle: bounding-box model of the relation computed from (location, cell size, reflections), required to equal Instance::boundbox(); reference expansion for arrays.",
    note="Non-orthogonal side/alignment pairs, Center/Ports alignment, placement relative to arrays/groups, relative array placement are unimplemented in the code and outside the quantifier.",
    technique="exhaustive table + property-based testing against a reference placement model; order-independence as a metamorphic relation"),
  "C19": dict(level="exploration", design="4/C19",
-   text="Seeded proptest search over placed gridded-layout libraries (cell DAGs in shuffled order, stepped outlines with ties, 0-5 metals, instances with all four reflection combinations, arbitrary assignments and cuts, port-less abstracts): export lists cells after the cells they instantiate, import succeeds and every field is equal. The exported message with one of 19 faults (each mandatory sub-message removed, undefined/external reference, an instantiated cell removed, cells listed users first, all leaf cells removed, relative placement, non-monotone outline, negative track) must be an error, never a crash. A third sub-check (`roundtrip-large`) exports and re-imports towers of 24-150 cells (levels sharing leaves, listed bottom-up, top-down or shuffled); export called twice on one library must give one message.",
+   text="Seeded proptest search over placed gridded-layout libraries (cell DAGs in shuffled order, stepped outlines with ties, 0-5 metals, instances with all four reflection combinations, arbitrary assignments and cuts, port-less abstracts): export lists cells after the cells they instantiate, import succeeds and every field is equal. The exported message with one of 22 faults (each mandatory sub-message removed, an outline without steps or with lists of unequal length, undefined/external reference, an instantiated cell removed, cells listed users first, all leaf cells removed, relative placement, non-monotone outline, negative track) must be an error, never a crash. A third sub-check (`roundtrip-large`) exports and re-imports towers of 24-150 cells (levels sharing leaves, listed bottom-up, top-down or shuffled); export called twice on one library must give one message.",
    note="Abstract ports are not generated (import is todo!() and outside the statement's field list).",
    technique="property-based testing: export/import round-trip oracle + fault injection into the exported message"),
 
